@@ -63,7 +63,7 @@ func (o *c20Obs) OnPersistComplete(ctx context.Context, d time.Duration, err err
 	o.done(ctx, 6, err)
 }
 
-//verif:entry property=C20 tier=both bounds="n<=N handlers each with arbitrary Once/Async/filter(reject)/panics flags; P publishes each with live or already-cancelled context; persistence absent / succeeding / failing per publish" cover="checked" N_quick=2 N_thorough=3 P_quick=2 P_thorough=2
+//verif:entry property=C20 tier=both bounds="n<=N handlers each with arbitrary Once/Async/filter(reject)/panics flags; P publishes each with live or already-cancelled context; persistence absent / succeeding / failing per publish, with or without a persistence timeout" cover="checked" N_quick=2 N_thorough=3 P_quick=2 P_thorough=2
 func harnessC20BusLevel() {
 	N, P := vParam("N", 2), vParam("P", 2)
 	obs := &c20Obs{}
@@ -72,6 +72,9 @@ func harnessC20BusLevel() {
 	fs := &flakyStore{inner: NewMemoryStore()}
 	if persist {
 		opts = append(opts, WithStore(fs))
+		if vBool() {
+			opts = append(opts, WithPersistenceTimeout(time.Second))
+		}
 	}
 	bus := New(opts...)
 	n := vInt(0, N)
